@@ -537,6 +537,22 @@ def discharge_assert(prog, ctx, fk, b, i, kind, reph_fns, sub13, loop_bounds_ok,
             if res is not None and 0 <= res < 2 ** 32:
                 return True, "D-const: %d %s %d" % (lv, st["rv"]["op"][:3], rv)
         op = st["rv"]["op"].replace("WithOverflow", "")
+        if op == "Add":
+            def _len_leaves(e, depth=0):
+                e = strip_refs(e)
+                if e.k == "call" and any(e.a[0].endswith(s_) for s_ in ("::len", "::capacity", "::count")):
+                    return 1
+                if e.k == "field" and str(e.a[1]) == "0":
+                    e = strip_refs(e.a[0])
+                if e.k == "bin" and e.a[0] in ("Add", "AddWithOverflow") and depth < 4:
+                    a_, b_ = _len_leaves(e.a[1], depth + 1), _len_leaves(e.a[2], depth + 1)
+                    return None if a_ is None or b_ is None else a_ + b_
+                if is_const(e, "int") and 0 <= const_val(e) <= 16:
+                    return 0
+                return None
+            nl_, nr_ = _len_leaves(l), _len_leaves(r)
+            if nl_ is not None and nr_ is not None and 2 <= nl_ + nr_ <= 8:
+                return True, "A-mem: a sum of %d lengths of in-memory objects cannot overflow (each < 2^60)" % (nl_ + nr_)
         if op in ("Add", "Mul"):
             small = [x for x in (l, r) if is_const(x, "int") and 0 <= const_val(x) <= 16]
             other = [x for x in (l, r) if not is_const(x, "int")]
@@ -683,7 +699,10 @@ def discharge_call(prog, ctx, fk, b, i, t, n, R, roles, reph_fns, sub13, sub15, 
             if src is not None:
                 return True, "dependency contract: okkhor's regex fragments are parenthesised groups, valid in any concatenation (DESIGN §8)"
             return False, "Regex::new on a pattern of unknown shape"
-        if fk == "data::Data::new":
+        # the bundled-data loader: Data's constructor and its private stages (associated functions of Data taking only the configuration)
+        fdat = prog.fns.get(fk) or {}
+        if fk == "data::Data::new" or (((fdat.get("impl") or {}).get("self") or "") == "data::Data" and not (fdat.get("impl") or {}).get("trait")
+                                        and fdat.get("inputs") in (["&config::Config"], [])):
             if contains_call(recv, lambda m: m.startswith("config::Config::get_") and ("database" in m or "suffix" in m or "autocorrect_data" in m)) is not None:
                 return True, "D-contract: bundled data directory (C10 scopes the *user* files; a configured data directory must hold the three data files)"
             return False, "unwrap in Data::new on a value that is not bundled-data I/O"
@@ -694,6 +713,12 @@ def discharge_call(prog, ctx, fk, b, i, t, n, R, roles, reph_fns, sub13, sub15, 
         return False, "receiver %s is not covered by a discharge rule" % (repr(peel_conv(recv))[:160])
     if any(n.startswith(p) for p in PANIC_FNS):
         return False, "explicit panic reachable from an event"
+    # inserting at the very start (byte index 0 is always a character boundary and never beyond the end)
+    if n.endswith("String::insert_str") or n.endswith("String::insert"):
+        idx = strip_refs(b.expr_operand(t["args"][1]))
+        if is_const(idx, "int") and const_val(idx) == 0:
+            return True, "D-insert-0: insertion at byte index 0 (always a boundary, never out of range)"
+        return False, "insertion index %r is not the constant 0" % (idx,)
     return False, "no discharge rule for %s" % n
 
 
